@@ -91,6 +91,16 @@ impl<T> QDLDLFactorisation<T>
 where
     T: FloatT,
 {
+    /// verification hook: the dynamic regularisation this factorisation was configured with (enable, eps, delta)
+    #[cfg(clarabel_verif)]
+    pub fn verif_reg(&self) -> (bool, f64, f64) {
+        (
+            self.workspace.regularize_enable,
+            crate::verif::f64_of(self.workspace.regularize_eps),
+            crate::verif::f64_of(self.workspace.regularize_delta),
+        )
+    }
+
     /// create a new LDL^T factorisation
     pub fn new(
         Ain: &CscMatrix<T>,
